@@ -2,6 +2,7 @@ package dbc
 
 import (
 	"bytes"
+	"errors"
 	"fmt"
 	"math"
 	"strconv"
@@ -322,12 +323,29 @@ func (p *Parser) int() int64 {
 	if tok.typ != scanner.Int && tok.typ != scanner.Float {
 		p.failf(tok.pos, "expected int or float")
 	}
+	if tok.typ == scanner.Int {
+		// a decimal integer literal is converted exactly (a float64 has only 53 bits of precision),
+		// saturating at the int64 limits; on a range error ParseUint returns math.MaxUint64
+		u, err := strconv.ParseUint(tok.txt, 10, 64)
+		if err == nil || errors.Is(err, strconv.ErrRange) {
+			switch {
+			case isNegative && u >= 1<<63:
+				return math.MinInt64
+			case isNegative:
+				return -int64(u)
+			case u > math.MaxInt64:
+				return math.MaxInt64
+			default:
+				return int64(u)
+			}
+		}
+	}
 	f, err := strconv.ParseFloat(tok.txt, 64)
 	if err != nil {
 		p.failf(tok.pos, "invalid int")
 	}
 	i := int64(f)
-	if f > math.MaxInt64 {
+	if f >= math.MaxInt64 {
 		i = math.MaxInt64
 	} else if f < math.MinInt64 {
 		i = math.MinInt64
